@@ -240,6 +240,12 @@ def run_case(desc, ctx):
         pool, shadows = [], []
         for _ in range(rng.randint(2, 3)):
             ok, (m, prod) = ctx.call("produce", _produce, ctx, rng, tmpdir, monitor="producer")
+            unit = rng.choice([1.0, 1.0, 1.0, 1.0, 1e-9, 1e7])
+            if unit != 1.0 and len(m.vertices):
+                # the producer's mesh expressed in very small / very large units
+                for i in range(len(m.vertices)):
+                    m.vertices[i] = M.Vec(np.asarray(m.vertices[i], float) * unit)
+                prod += "@units%g" % unit
             pool.append(m)
             shadows.append(Shadow(m, prod))
             ctx.cls("producer:" + prod)
@@ -275,6 +281,11 @@ def run_case(desc, ctx):
                 for name in ("vertices", "edges", "faces", "cells", "face_corners", "cell_corners", "cell_faces"):
                     if hasattr(m, name) and getattr(m, name) is getattr(c, name):
                         shared = True
+                for name in ("edges", "faces", "cells"):  # mutable index rows (lists / arrays) must not be the same objects either
+                    if hasattr(m, name):
+                        ids = {id(el) for el in getattr(m, name) if isinstance(el, (list, np.ndarray))}
+                        if any(id(el) in ids for el in getattr(c, name)):
+                            shared = True
                 if shared:
                     ctx.violation("copy", "copy", "copy_shares_storage_with_source", "a copy shares containers or coordinate arrays with its source", producer=sh.producer)
                     raise CaseAbort()
